@@ -447,13 +447,13 @@ def parse_model_line(line):
         return {'bad': line}
 
 
-def run_cases(cases, impl_bin, kind_env=None, workers=16, timeout=20):
+def run_cases(cases, impl_bin, kind_env=None, workers=16, timeout=20, model_workers=12):
     """Run every case through the Lean model (one driver process) and the real
     binary (one process per case, in parallel)."""
     root = tempfile.mkdtemp(prefix='beebverif-')
     try:
-        reqs = []
         for i, c in enumerate(cases):
+            reqs = c.reqs = []
             d = os.path.join(root, 'c%d' % i)
             os.makedirs(d)
             c.dir = d
@@ -520,14 +520,23 @@ def run_cases(cases, impl_bin, kind_env=None, workers=16, timeout=20):
                 av.append(a)
             c.real_argv = av
             reqs.append('main %d %s %s' % (1 if c.ndebug else 0, c.cols if c.cols else '-', ' '.join(hexarg(a) for a in av)))
-        out, rc, err = run_lines(driver_path(), reqs, timeout=1800)
-        if rc != 0 or len(out) != len(reqs):
-            raise RuntimeError('model driver failed rc=%s (%d/%d): %s' % (rc, len(out), len(reqs), err[-500:]))
-        k = 0
-        for c in cases:
-            k += 1 + c.nreq
-            c.model = parse_model_line(out[k])
-            k += 1
+        # the model: several driver processes, each serving a contiguous share of the cases
+        nproc = max(1, min(model_workers, len(cases) // 8))
+        shares = [cases[k::nproc] for k in range(nproc)]
+
+        def serve(share):
+            reqs = [rq for c in share for rq in c.reqs]
+            out, rc, err = run_lines(driver_path(), reqs, timeout=3600)
+            if rc != 0 or len(out) != len(reqs):
+                raise RuntimeError('model driver failed rc=%s (%d/%d): %s' % (rc, len(out), len(reqs), err[-500:]))
+            k = 0
+            for c in share:
+                k += len(c.reqs)
+                c.model = parse_model_line(out[k - 1])
+        with cf.ThreadPoolExecutor(max_workers=nproc) as ex:
+            model_futures = [ex.submit(serve, sh) for sh in shares]
+            for f in model_futures:
+                f.result()
 
         def one(c):
             env = {'COLUMNS': str(c.cols)} if c.cols else {}
